@@ -823,6 +823,176 @@ impl H {
         self.state_check()
     }
 
+    /// run the repository's own CLI (xs-real = /repo/src/main.rs against the hooked library) under a watchdog
+    fn cli(&self, args: &[&str], stdin: Option<&[u8]>) -> Option<(i32, Vec<u8>, String)> {
+        use std::io::Write;
+        use std::process::{Command, Stdio};
+        let bin = crate::session::self_exe().parent()?.join("xs-real");
+        if !bin.exists() {
+            return None;
+        }
+        let mut child = Command::new("timeout").arg("-k").arg("2").arg("20").arg(&bin).args(args).stdin(Stdio::piped()).stdout(Stdio::piped()).stderr(Stdio::piped()).spawn().ok()?;
+        {
+            let mut si = child.stdin.take()?;
+            if let Some(b) = stdin {
+                let _ = si.write_all(b);
+            }
+        }
+        let out = child.wait_with_output().ok()?;
+        Some((out.status.code().unwrap_or(-1), out.stdout, String::from_utf8_lossy(&out.stderr).to_string()))
+    }
+
+    /// the client side of the wire: option / ttl / meta encoding by the CLI, decoding by the server
+    fn cli_ops(&mut self) -> R<()> {
+        self.r.step += 1;
+        let dir = self.r.dir.to_string_lossy().to_string();
+        let kind = self.rng().below(8);
+        *self.r.res.counters.entry("cli.invocations".into()).or_insert(0) += 1;
+        match kind {
+            0 | 1 | 2 => {
+                // xs cat with option combinations
+                let ids: Vec<u128> = self.r.model.frames.keys().copied().collect();
+                let scope = self.rng().below(3); // 0 default (zero context), 1 -c ctx, 2 --all
+                let ctx: Option<u128> = match scope {
+                    0 => Some(0),
+                    1 => Some(self.usable_ctx()),
+                    _ => None,
+                };
+                let last_id: Option<u128> = if !ids.is_empty() && self.rng().chance(500) { Some(*self.r.rng.pick(&ids)) } else { None };
+                let limit: Option<usize> = if self.rng().chance(500) { Some(1 + self.rng().below(6)) } else { None };
+                let sse = self.rng().chance(300);
+                let mut args: Vec<String> = vec!["cat".into(), dir.clone()];
+                match scope {
+                    1 => {
+                        args.push("-c".into());
+                        args.push(id_str(ctx.unwrap()));
+                    }
+                    2 => args.push("--all".into()),
+                    _ => {}
+                }
+                if let Some(l) = last_id {
+                    args.push("--last-id".into());
+                    args.push(id_str(l));
+                }
+                if let Some(l) = limit {
+                    args.push("--limit".into());
+                    args.push(l.to_string());
+                }
+                if sse {
+                    args.push("--sse".into());
+                }
+                let a: Vec<&str> = args.iter().map(|s| s.as_str()).collect();
+                let Some((code, out, err)) = self.cli(&a, None) else { return Ok(()) };
+                if code != 0 {
+                    self.find(&["C13", "C12"], "cli-cat/failed".into(), json!({"args": args, "exit": code, "stderr": err.chars().take(300).collect::<String>()}));
+                    return Ok(());
+                }
+                // (observation, not a verdict: `xs cat --sse` sends two Accept headers and the server honours the
+                // first, */*, so the output is NDJSON either way; both renderings are accepted here)
+                let is_sse = out.starts_with(b"id: ");
+                if sse {
+                    *self.r.res.counters.entry(if is_sse { "cli.sse_flag_gave_sse" } else { "cli.sse_flag_gave_ndjson" }.into()).or_insert(0) += 1;
+                }
+                let vals: Vec<Value> = if is_sse { http::sse(&out).into_iter().map(|e| e.1).collect() } else { http::ndjson(&out) };
+                let obs: Vec<(u128, u64)> = vals.iter().filter_map(|v| serde_json::from_value::<Frame>(v.clone()).ok()).map(|f| (f.id.to_u128(), frame_digest(&f))).collect();
+                *self.r.res.counters.entry("cli.frames_compared".into()).or_insert(0) += obs.len() as u64;
+                let mut fs = self.r.model.check_read("cli-cat", ctx, last_id, limit, &obs);
+                for f in fs.iter_mut() {
+                    f.props.push("C13");
+                    f.props.push("C12");
+                    f.signature = format!("cli/{}", f.signature);
+                    f.detail = json!({"args": args, "what": f.detail});
+                }
+                let step = self.r.step;
+                self.r.res.add_pub(step, fs);
+            }
+            3 | 4 => {
+                // xs append with --meta / --ttl / -c and content on stdin
+                let ctx = if self.rng().chance(500) { 0 } else { self.usable_ctx() };
+                let (ttl_s, ttl): (Option<&str>, TTL) = match self.rng().below(6) {
+                    0 | 1 => (None, TTL::Forever),
+                    2 => (Some("ephemeral"), TTL::Ephemeral),
+                    3 => (Some("head:2"), TTL::Head(2)),
+                    4 => (Some("time:1000000000000"), TTL::Time(Duration::from_millis(1_000_000_000_000))),
+                    _ => (Some("forever"), TTL::Forever),
+                };
+                let meta: Option<Value> = match self.rng().below(4) {
+                    0 => None,
+                    1 => Some(json!({"name": "Información", "n": 1, "nested": {"a": [1, 2, 3]}})),
+                    2 => Some(json!({"s": "quote \" backslash \\ tab \t", "u": "日本"})),
+                    _ => crate::gen::meta(&mut self.r.rng).filter(|m| m.is_object()),
+                };
+                let body = if self.rng().chance(200) { vec![] } else { let n = *self.rng().pick(&[1usize, 100, 8193, 70_000]); self.rng().bytes(n) };
+                let topic = *self.rng().pick(&["cli", "a", "cli.topic"]);
+                let mut args: Vec<String> = vec!["append".into(), dir.clone(), topic.into()];
+                if let Some(m) = &meta {
+                    args.push("--meta".into());
+                    args.push(serde_json::to_string(m).unwrap());
+                }
+                if let Some(t) = ttl_s {
+                    args.push("--ttl".into());
+                    args.push(t.into());
+                }
+                if ctx != 0 {
+                    args.push("-c".into());
+                    args.push(id_str(ctx));
+                }
+                let a: Vec<&str> = args.iter().map(|s| s.as_str()).collect();
+                let Some((code, out, err)) = self.cli(&a, Some(&body)) else { return Ok(()) };
+                if code != 0 {
+                    self.find(&["C13", "C12"], "cli-append/failed".into(), json!({"args": args, "exit": code, "stderr": err.chars().take(300).collect::<String>()}));
+                    return self.state_check();
+                }
+                match serde_json::from_slice::<Frame>(&out) {
+                    Ok(got) => {
+                        let exp = Frame::builder(topic, Scru128Id::from(ctx)).id(got.id).maybe_meta(meta.clone()).ttl(ttl).maybe_hash(if body.is_empty() { None } else { crate::cas::sha256_integrity(&body).parse().ok() }).build();
+                        if got != exp {
+                            self.find(&["C13", "C12"], "cli-append/stored-frame-differs-from-what-the-client-was-asked".into(), json!({"args": args.iter().map(|a| a.chars().take(200).collect::<String>()).collect::<Vec<_>>(), "expected": exp, "got": got}));
+                        }
+                        self.r.note_external_append(&got);
+                    }
+                    Err(e) => self.find(&["C13"], "cli-append/output-is-not-a-frame".into(), json!({"error": e.to_string()})),
+                }
+                return self.state_check();
+            }
+            5 => {
+                // get / head / remove by the CLI
+                if let Some(id) = self.pick_existing() {
+                    let ids = id_str(id);
+                    if let Some((code, out, _)) = self.cli(&["get", &dir, &ids], None) {
+                        match serde_json::from_slice::<Frame>(&out) {
+                            Ok(f) if code == 0 && frame_digest(&f) == self.r.model.frames[&id].digest => {}
+                            other => self.find(&["C13"], "cli-get/frame-differs-or-failed".into(), json!({"exit": code, "got": other.map_err(|e| e.to_string()), "expected": self.r.model.frames[&id].frame})),
+                        }
+                    }
+                }
+            }
+            6 => {
+                // cas-post then cas
+                let n = *self.rng().pick(&[1usize, 9000, 100_000]);
+                let body = self.rng().bytes(n);
+                if let Some((code, out, err)) = self.cli(&["cas-post", &dir], Some(&body)) {
+                    let want = crate::cas::sha256_integrity(&body);
+                    if code != 0 || String::from_utf8_lossy(&out).trim() != want {
+                        self.find(&["C13", "C10"], "cli-cas-post/hash-differs-or-failed".into(), json!({"exit": code, "got": String::from_utf8_lossy(&out), "want": want, "stderr": err.chars().take(200).collect::<String>()}));
+                    } else if let Some((c2, o2, _)) = self.cli(&["cas", &dir, &want], None) {
+                        if c2 != 0 || o2 != body {
+                            self.find(&["C13", "C10"], "cli-cas/content-differs-or-failed".into(), json!({"exit": c2, "got_len": o2.len(), "want_len": body.len()}));
+                        }
+                    }
+                }
+            }
+            _ => {
+                if let Some((code, out, _)) = self.cli(&["version", &dir], None) {
+                    if code != 0 || serde_json::from_slice::<Value>(&out).ok().and_then(|v| v.get("version").cloned()).is_none() {
+                        self.find(&["C13"], "cli-version/failed".into(), json!({"exit": code, "out": String::from_utf8_lossy(&out)}));
+                    }
+                }
+            }
+        }
+        Ok(())
+    }
+
     fn misc(&mut self) -> R<()> {
         match self.rng().below(8) {
             0 => {
@@ -912,7 +1082,7 @@ impl H {
         self.register_ctx()?;
         self.fixed_probes()?;
         for _ in 0..n {
-            let w = [22u32, 3, 14, 3, 10, 8, 8, 8, 10, 14, 3, 4, 8];
+            let w = [22u32, 3, 14, 3, 10, 8, 8, 8, 10, 14, 3, 4, 8, 10];
             match self.rng().weighted(&w) {
                 0 => self.append_valid()?,
                 1 => self.register_ctx()?,
@@ -926,7 +1096,8 @@ impl H {
                 9 => self.cat()?,
                 10 => self.follow_live()?,
                 11 => self.head_follow()?,
-                _ => self.misc()?,
+                12 => self.misc()?,
+                _ => self.cli_ops()?,
             }
             if self.r.res.inconclusive.is_some() {
                 return Ok(());
